@@ -896,3 +896,19 @@ Lemma spec_any_aead (CT : Type) (seal : N -> bytes -> payload -> CT) (open : byt
   (forall n a a' p p', open a' (seal n a p) = Some p' -> a' = a) ->
   forall ids ops, spec_run ids ops (run CT seal open ids (st0 CT) ops) [] 0 0 None [] = true.
 Proof. intros H1 H2 ids ops. apply (spec_run_holds CT seal open H1 H2). apply inv0. Qed.
+
+(* identities are compared bytewise: no spelling of a domain or principal (letter case,
+   blanks, ...) is conflated with another by any of the three kinds' associated data *)
+Lemma identity_bytes_significant_lemma k1 k2 d1 p1 d2 p2 :
+  nul_free d1 = true -> nul_free d2 = true ->
+  token_aad k1 (Auth d1 p1) = token_aad k2 (Auth d2 p2) -> d1 = d2 /\ p1 = p2.
+Proof.
+  intros N1 N2 H. destruct (aad_injective_lemma k1 k2 (Auth d1 p1) (Auth d2 p2) N1 N2 H) as [_ E].
+  inversion E; auto.
+Qed.
+
+Lemma case_variants_distinct_lemma :
+  forall k1 k2 p, token_aad k1 (Auth (str "SSO") p) <> token_aad k2 (Auth (str "sso") p).
+Proof.
+  intros k1 k2 p H. apply identity_bytes_significant_lemma in H as [E _]; [discriminate| |]; reflexivity.
+Qed.
